@@ -10,3 +10,49 @@ package base
 //@ func NewJavaRefactorListener
 //@ establishes
 //@ modifies *
+
+// C06: every exception type of a (multi-)catch is recorded as a used name of its own (catch (A | B e) uses A and B);
+// names recorded before stay recorded
+//@ method JavaRefactorListener.EnterCatchType
+//@ modifies models.fields
+//@ ensures forall j int :: {ChildN(ctx, "qualifiedName", j)} 0 <= j && j < Count(ctx, "qualifiedName") ==> (GetText(ChildN(ctx, "qualifiedName", j)) in models.fields)
+//@ ensures forall s string :: {s in models.fields} (s in old(models.fields)) ==> (s in models.fields)
+//@ loop 1 invariant models.fields != nil
+//@ loop 1 invariant forall j int :: {ChildN(ctx, "qualifiedName", j)} 0 <= j && j < #i ==> (GetText(ChildN(ctx, "qualifiedName", j)) in models.fields)
+//@ loop 1 invariant forall s string :: {s in models.fields} (s in old(models.fields)) ==> (s in models.fields)
+
+// the same for the other places a type name can be used: a throws list, a (qualified / generic) type, an object
+// creation, an annotation: each name written there is recorded, nothing recorded before is lost
+//@ method JavaRefactorListener.EnterQualifiedNameList
+//@ modifies models.fields
+//@ ensures forall j int :: {ChildN(ctx, "qualifiedName", j)} 0 <= j && j < Count(ctx, "qualifiedName") ==> (GetText(ChildN(ctx, "qualifiedName", j)) in models.fields)
+//@ ensures forall s string :: {s in models.fields} (s in old(models.fields)) ==> (s in models.fields)
+//@ loop 1 invariant models.fields != nil
+//@ loop 1 invariant forall j int :: {ChildN(ctx, "qualifiedName", j)} 0 <= j && j < #i ==> (GetText(ChildN(ctx, "qualifiedName", j)) in models.fields)
+//@ loop 1 invariant forall s string :: {s in models.fields} (s in old(models.fields)) ==> (s in models.fields)
+
+//@ method JavaRefactorListener.EnterClassOrInterfaceType
+//@ modifies models.fields
+//@ ensures forall j int :: {ChildN(ctx, "identifier", j)} 0 <= j && j < Count(ctx, "identifier") ==> (GetText(ChildN(ctx, "identifier", j)) in models.fields)
+//@ ensures forall s string :: {s in models.fields} (s in old(models.fields)) ==> (s in models.fields)
+//@ loop 1 invariant models.fields != nil
+//@ loop 1 invariant forall j int :: {ChildN(ctx, "identifier", j)} 0 <= j && j < #i ==> (GetText(ChildN(ctx, "identifier", j)) in models.fields)
+//@ loop 1 invariant forall s string :: {s in models.fields} (s in old(models.fields)) ==> (s in models.fields)
+
+//@ method JavaRefactorListener.EnterCreatedName
+//@ modifies models.fields
+//@ ensures forall j int :: {ChildN(ctx, "identifier", j)} 0 <= j && j < Count(ctx, "identifier") ==> (GetText(ChildN(ctx, "identifier", j)) in models.fields)
+//@ ensures forall s string :: {s in models.fields} (s in old(models.fields)) ==> (s in models.fields)
+//@ loop 1 invariant models.fields != nil
+//@ loop 1 invariant forall j int :: {ChildN(ctx, "identifier", j)} 0 <= j && j < #i ==> (GetText(ChildN(ctx, "identifier", j)) in models.fields)
+//@ loop 1 invariant forall s string :: {s in models.fields} (s in old(models.fields)) ==> (s in models.fields)
+
+//@ method JavaRefactorListener.EnterAnnotation
+//@ modifies models.fields
+//@ ensures Child(ctx, "qualifiedName") != nil ==> (GetText(Child(ctx, "qualifiedName")) in models.fields)
+//@ ensures forall s string :: {s in models.fields} (s in old(models.fields)) ==> (s in models.fields)
+
+//@ method JavaRefactorListener.EnterTypeType
+//@ modifies models.fields
+//@ ensures GetText(ctx) in models.fields
+//@ ensures forall s string :: {s in models.fields} (s in old(models.fields)) ==> (s in models.fields)
